@@ -709,23 +709,14 @@ func c01Pipeline(c *Ctx, r *Result) {
 			r.Undecide("R01e: no RuleIndex.Match call in %s", key)
 			continue
 		}
-		// the action call and its slice
-		var actionSlice ssa.Value
-		allInstrs(fn, func(in ssa.Instruction) {
-			call, ok := in.(*ssa.Call)
-			if !ok || call.Call.IsInvoke() {
-				return
-			}
-			if ld, ok := call.Call.Value.(*ssa.UnOp); ok {
-				if fa, ok := ld.X.(*ssa.FieldAddr); ok && fieldVar(fa) == fAction {
-					actionSlice = elemOfSlice(fa.X)
-				}
-			}
-		})
-		if actionSlice == nil {
+		// the action call and its slice — possibly in a helper the loop was extracted into
+		rl := findRuleLoop(c, fn, fAction)
+		if rl == nil {
 			r.Undecide("R01e: the rule loop of %s was not found", key)
 			continue
 		}
+		selFn, selVals, _ := rl.selection(c)
+		_ = selFn
 		// scope test facts helper: a call IsAllowedAll(load elem.ScopeMatch) known true at `at`, on the cascade's scope
 		scopeOK := func(at ssa.Instruction, elem ssa.Value) bool {
 			for v := range FactsAt(at).TrueV {
@@ -746,8 +737,8 @@ func c01Pipeline(c *Ctx, r *Result) {
 					continue
 				}
 				// the scope is the cascade's: Monitor.Scope() of a parameter
-				if sc, ok := unspill(args[0]).(*ssa.Call); ok && sc.Call.IsInvoke() && sc.Call.Method.Name() == "Scope" {
-					if _, isParam := sc.Call.Value.(*ssa.Parameter); isParam {
+				if sc, ok := rl.resolve(args[0]).(*ssa.Call); ok && sc.Call.IsInvoke() && sc.Call.Method.Name() == "Scope" {
+					if prm, isParam := rl.resolve(sc.Call.Value).(*ssa.Parameter); isParam && prm.Parent() == fn {
 						return true
 					}
 				}
@@ -778,7 +769,13 @@ func c01Pipeline(c *Ctx, r *Result) {
 			return false
 		}
 		// executing slice: built from appends
-		eApps, eBases := sliceAppends(actionSlice)
+		var eApps []*ssa.Call
+		var eBases []ssa.Value
+		for _, sv := range selVals {
+			a, b := sliceAppends(sv)
+			eApps = append(eApps, a...)
+			eBases = append(eBases, b...)
+		}
 		if len(eBases) > 0 || len(eApps) == 0 {
 			fail("executing", "the executed slice is not built only by appending filtered rules", pos)
 			continue
@@ -812,7 +809,7 @@ func c01Pipeline(c *Ctx, r *Result) {
 		for _, app := range tApps {
 			for _, el := range appendedElems(app) {
 				src := elemOfSlice(el)
-				if src == nil || unspill(src) != ssa.Value(match) {
+				if src == nil || rl.resolve(src) != ssa.Value(match) {
 					fail("candidates", "a rule enters the triggering list that is not an element of RuleIndex.Match(event)", c.Pos(c.InstrPos(app)))
 					ok = false
 					continue
@@ -825,38 +822,44 @@ func c01Pipeline(c *Ctx, r *Result) {
 		}
 		// suppression entries only from in-scope candidates
 		nSup := 0
-		allInstrs(fn, func(in ssa.Instruction) {
-			mu, isMU := in.(*ssa.MapUpdate)
-			if !isMU {
-				return
-			}
-			mt, isMap := mu.Map.Type().Underlying().(*types.Map)
-			if !isMap || mt.Elem().String() != "bool" {
-				return
-			}
-			nSup++
-			if cv, isC := mu.Value.(*ssa.Const); !isC || cv.Value == nil || cv.Value.String() != "true" {
-				fail("suppression-value", "a value other than true is stored in the suppression set", c.Pos(c.InstrPos(in)))
-				ok = false
-			}
-			// key = element of <cand>.SuppressionList
-			ks := elemOfSlice(mu.Key)
-			good := false
-			if ks != nil {
-				if ld, isLoad := unspill(ks).(*ssa.UnOp); isLoad {
-					if fa, isFA := ld.X.(*ssa.FieldAddr); isFA && fieldVar(fa) == fSuppr {
-						cand := fa.X
-						if src := elemOfSlice(cand); src != nil && unspill(src) == ssa.Value(match) && scopeOK(in, unspill(cand)) {
-							good = true
+		supFns := []*ssa.Function{fn}
+		if selFn != fn {
+			supFns = append(supFns, selFn)
+		}
+		for _, sfn := range supFns {
+			allInstrs(sfn, func(in ssa.Instruction) {
+				mu, isMU := in.(*ssa.MapUpdate)
+				if !isMU {
+					return
+				}
+				mt, isMap := mu.Map.Type().Underlying().(*types.Map)
+				if !isMap || mt.Elem().String() != "bool" {
+					return
+				}
+				nSup++
+				if cv, isC := mu.Value.(*ssa.Const); !isC || cv.Value == nil || cv.Value.String() != "true" {
+					fail("suppression-value", "a value other than true is stored in the suppression set", c.Pos(c.InstrPos(in)))
+					ok = false
+				}
+				// key = element of <cand>.SuppressionList
+				ks := elemOfSlice(mu.Key)
+				good := false
+				if ks != nil {
+					if ld, isLoad := unspill(ks).(*ssa.UnOp); isLoad {
+						if fa, isFA := ld.X.(*ssa.FieldAddr); isFA && fieldVar(fa) == fSuppr {
+							cand := fa.X
+							if src := elemOfSlice(cand); src != nil && rl.resolve(src) == ssa.Value(match) && scopeOK(in, unspill(cand)) {
+								good = true
+							}
 						}
 					}
 				}
-			}
-			if !good {
-				fail("suppression-source", "a name enters the suppression list that does not come from the SuppressionList of a matching candidate under a successful scope test (an out-of-scope rule could suppress others)", c.Pos(c.InstrPos(in)))
-				ok = false
-			}
-		})
+				if !good {
+					fail("suppression-source", "a name enters the suppression list that does not come from the SuppressionList of a matching candidate under a successful scope test (an out-of-scope rule could suppress others)", c.Pos(c.InstrPos(in)))
+					ok = false
+				}
+			})
+		}
 		if nSup == 0 {
 			fail("suppression-none", "no suppression list is built", pos)
 			ok = false
@@ -1078,8 +1081,10 @@ func c01Fresh(c *Ctx, r *Result) {
 // RuleMatcherKey.match computes, with bit-parallel operators only (| & ^ &^), which candidate rules
 // survive the test of one state key. Bit-parallel formulas agree on all 64-bit words iff they
 // agree on single bits, so the formula is decided by its truth table over
-//   in   — the rule is still a candidate,        rb  — the rule constrains this key (rm.bits),
-//   any  — it accepts any value / a regex,        val — it demands exactly the event's value,
+//
+//	in   — the rule is still a candidate,        rb  — the rule constrains this key (rm.bits),
+//	any  — it accepts any value / a regex,        val — it demands exactly the event's value,
+//
 // restricted by what addRule establishes (any ⇒ rb, val ⇒ rb, ¬(any ∧ val)). Specification:
 // survive = in ∧ (¬rb ∨ any ∨ val); when the event's value is not registered, val = 0.
 func c01MatchFormula(c *Ctx, r *Result) {
